@@ -975,6 +975,32 @@ func (env *SpecEnv) evalCall(x *SExpr) *Val {
 				return v
 			}
 			env.fail("unknown sentinel %s.%s", pp, args[1].Name)
+		case "counttrue", "countvisited":
+			// counttrue(m): number of keys of map[K]bool m whose value is true
+			// countvisited(m): the same restricted to the keys visited so far by the loop's iterator
+			m := env.eval(args[0])
+			mt, ok := m.T.Underlying().(*types.Map)
+			if !ok || kindOf(mt.Elem()) != KBool || len(e.mapKeySorts(mt)) != 1 {
+				env.fail("%s needs a map with a scalar key and bool values", fn.Name)
+			}
+			mc := e.mapInfo(mt)
+			val := sel(e.comp(env.cur, mc.vals[0].suffix, mc.valS[0]), m.term())
+			var set string
+			if fn.Name == "counttrue" {
+				set = sel(e.comp(env.cur, mc.dom, mc.domS), m.term())
+			} else {
+				it := env.loopIter()
+				set = e.comp(env.cur, it.comp, it.compSort)
+			}
+			e.useCnt2()
+			r := fmt.Sprintf("(cnt2 %s %s)", set, val)
+			if env.facts != nil {
+				*env.facts = append(*env.facts, fmt.Sprintf("(<= 0 %s)", r))
+			}
+			return mathInt(r)
+		case "itersteps":
+			it := env.loopIter()
+			return mathInt(e.comp(env.cur, it.comp+"#steps", "Int"))
 		case "inregion":
 			// inregion(p, s): pointer p lies inside the backing array (up to cap) of slice s
 			pv := env.eval(args[0])
@@ -1153,29 +1179,30 @@ func wrapVal(v *Val, wrap func(string) string) *Val {
 	return &c
 }
 
-func (env *SpecEnv) visited(args []*SExpr) *Val {
+func (env *SpecEnv) loopIter() *iterInfo {
 	fr := env.fr
 	if fr == nil || env.at == nil {
-		env.fail("visited() only inside loop invariants")
+		env.fail("only available inside loop invariants")
 	}
 	for _, in := range env.at.Instrs {
 		if nx, ok := in.(*ssa.Next); ok {
-			it := fr.iters[nx.Iter]
-			if it == nil {
-				break
+			if it := fr.iters[nx.Iter]; it != nil {
+				return it
 			}
-			mc := env.e.mapInfo(it.mapType)
-			cs := "(Array Int " + nestArr(mc.ks, "Bool") + ")"
-			vis := env.e.comp(env.cur, "IT:"+mc.mk, cs)
-			var ks []string
-			for _, a := range args {
-				flatten(env.eval(a), &ks)
-			}
-			return boolVal(mapSel(sel(vis, it.id), ks))
 		}
 	}
 	env.fail("no map iterator in this loop")
 	return nil
+}
+
+func (env *SpecEnv) visited(args []*SExpr) *Val {
+	it := env.loopIter()
+	vis := env.e.comp(env.cur, it.comp, it.compSort)
+	var ks []string
+	for _, a := range args {
+		flatten(env.eval(a), &ks)
+	}
+	return boolVal(mapSel(vis, ks))
 }
 
 func (env *SpecEnv) lockRef(x *SExpr) string {
